@@ -41,13 +41,28 @@ def splits(n, rnd):
     return out
 
 
-def incremental_records(rnd, first_id, selfref=False):
+def incremental_records(rnd, first_id, selfref=False, padnames=False):
     mode = codec.gen_mode(rnd)
     g = A.Gen(rnd, mode, CFG)
     while True:
         t = g.struct()
         if not A.has_dup_names(t):
             break
+    if padnames:
+        # the padding name `_` may repeat (it is the one name that may): uint16 magic; uint8 _; uint8 flags; uint8 _; uint32 length;
+        # parsed from constant bytes, so that what the one attribute `_` shows is the value of every `_` member (seed S98)
+        pad = A.t_int(rnd.choice(["uint8", "uint8", "uint16"]))
+        fields, k = [], 0
+        for i in range(rnd.randrange(3, 7)):
+            if i % 2 == 1 or rnd.random() < 0.2:
+                fields.append(A.field("_", pad))
+            else:
+                fields.append(A.field(f"m{k}", A.t_int(rnd.choice(["uint8", "uint16", "uint32", "int24"]))))
+                k += 1
+        if sum(1 for f in fields if f["name"] == "_") < 2:
+            fields.append(A.field("_", pad))
+        t = A.t_struct(t["name"], fields)
+        g.consts = {}
     if selfref:
         # struct s { ...; s *next; ... }: the name is pre-registered, the fields are committed afterwards
         pos = rnd.randrange(len(t["fields"]) + 1)
@@ -66,6 +81,8 @@ def incremental_records(rnd, first_id, selfref=False):
     scn = {"type": t, "mode": mode, "consts": consts, "defs": defs}
     start = codec.start_for(rnd, scn)
     datas = [codec.gen_input(rnd, start, maxlen=80), bytes(start) + bytes(range(1, 81))]
+    if padnames:
+        datas = [bytes(start) + bytes([c]) * 60 for c in (0x55, 0x00)]
     try:
         cs = codec.load(defs, mode, compiled)
         One = getattr(cs, t["name"])
@@ -129,6 +146,8 @@ class IncrementalCheck:
             recs += incremental_records(rnd, 0, selfref=False)
         for _ in range(1500 if thorough else 100):
             recs += incremental_records(rnd, 0, selfref=True)
+        for _ in range(600 if thorough else 40):
+            recs += incremental_records(rnd, 0, padnames=True)
 
         def nontrivial(r):
             return (r.get("tag") in ("incremental", "commits") and r["defs"].count(",") >= 1) or "*next" in r["defs"]
